@@ -56,6 +56,9 @@ static bool A_LOAD_canceled(int mo) { A_NOTE(mo); if (!MO_HAS_ACQUIRE(mo)) g_bad
 void TSB_trySetCurrentException(void)
 __CPROVER_requires(g_guard >= kUnset && g_guard <= kSet && !g_i_hold_setting && !g_exception_written_by_me && !g_published_by_me && !g_bad_order && !g_exception_taken)
 __CPROVER_ensures(!g_bad_order && !g_i_hold_setting && (g_exception_written_by_me == g_published_by_me) && (g_published_by_me ==> g_canceled))
+/* a thrown exception is never dropped while nothing has been captured: on return SOME exception has been claimed (this one, or another
+ * thrower's that got there first); the waiter cannot have reset the guard meanwhile, because this task has not finished yet */
+__CPROVER_ensures(g_guard != kUnset)
 __CPROVER_assigns(g_guard, g_i_hold_setting, g_exception_written_by_me, g_published_by_me, g_canceled, g_bad_order, g_last_mo)
 #include "TSB_trySetCurrentException.body.inc"
 
